@@ -303,4 +303,220 @@ theorem wave_spec (c : Cfg) (hv : c.Valid) (f0 : Nat → Nat) (himg : Img c f0) 
     exact hok a ha
 
 
+theorem foldlM_effect {α : Type} (step : Mem → α → Except String Mem) (Ok : Mem → Prop) (pairs : α → List (Nat × Nat)) :
+    ∀ (l : List α), (∀ x ∈ l, ∀ m, Ok m → ∃ m', step m x = .ok m' ∧ get m' = applyWrites (pairs x) (get m) ∧ Ok m') →
+    ∀ m, Ok m → ∃ m', l.foldlM step m = .ok m' ∧ get m' = applyWrites (l.flatMap pairs) (get m) ∧ Ok m' := by
+  intro l
+  induction l with
+  | nil => intro _ m hok; exact ⟨m, rfl, rfl, hok⟩
+  | cons x xs ih =>
+    intro h m hok
+    obtain ⟨m1, h1, g1, ok1⟩ := h x (List.mem_cons_self ..) m hok
+    obtain ⟨m2, h2, g2, ok2⟩ := ih (fun y hy => h y (List.mem_cons_of_mem _ hy)) m1 ok1
+    refine ⟨m2, ?_, ?_, ok2⟩
+    · rw [List.foldlM_cons, h1]
+      exact h2
+    · rw [g2, g1, List.flatMap_cons, applyWrites_append]
+
+/-- size of the row of work-group `k` -/
+def rowSize (G k : Nat) : Nat := min (G - k * 64) 64
+
+theorem rowSize_ok (G k : Nat) (hG : 0 < G) (hk : k < C08.nwg G 64) :
+    1 ≤ rowSize G k ∧ rowSize G k ≤ 64 ∧ 64 * k + rowSize G k ≤ G := by
+  have := (C08.lt_nwg G 64 k hG (by decide)).mp hk
+  unfold rowSize
+  omega
+
+/-- all byte writes of the dispatch, work-group by work-group -/
+def allPairs (c : Cfg) (f0 : Nat → Nat) : List (Nat × Nat) :=
+  (List.range (C08.nwg c.G 64)).flatMap fun k => wavePairs c f0 k (2 ^ rowSize c.G k - 1)
+
+theorem wavesOf_disp (c : Cfg) (ka pk : List Nat) (k s : Nat) (h1 : 1 ≤ s) (h2 : s ≤ 64) :
+    wavesOf (disp c ka pk) ⟨(k, 0, 0), (s, 1, 1)⟩ = [wave0 c ka pk k s] := by
+  unfold wavesOf
+  show (C08.formWfs 64 1 (C08.spawn (s, 1, 1))).map _ = _
+  rw [formWfs_row s h1 h2]
+  rfl
+
+/-- the whole dispatch: the emulator succeeds and the final memory is the launch image with all the
+    wavefronts' writes applied -/
+theorem runE_effect (c : Cfg) (hv : c.Valid) (hG : 0 < c.G) (ka pk : List Nat) (m : Mem) (fuel : Nat)
+    (himg : Img c (get (install c.pa pk (install c.ka ka m)))) :
+    ∃ m', runE P (disp c ka pk) (fuel + 27) m = .ok m' ∧
+      get m' = applyWrites (allPairs c (get (install c.pa pk (install c.ka ka m))))
+        (get (install c.pa pk (install c.ka ka m))) := by
+  generalize hm0 : install c.pa pk (install c.ka ka m) = m0 at himg ⊢
+  unfold runE
+  show ∃ m', (wgList (geo c.G)).foldlM _ (install c.pa pk (install c.ka ka m)) = _ ∧ _
+  rw [hm0, wgList_geo c.G hG]
+  obtain ⟨m', hf, hg, _⟩ := foldlM_effect
+    (fun m wg => runWG P (disp c ka pk).kernelObject (fuel + 27) (fuel + 27) (wavesOf (disp c ka pk) wg) m [])
+    (Ok c (get m0)) (fun wg => wavePairs c (get m0) wg.id.1 (2 ^ wg.sz.1 - 1))
+    ((List.range (C08.nwg c.G 64)).map fun k => ⟨(k, 0, 0), (min (c.G - k * 64) 64, 1, 1)⟩)
+    (by
+      intro wg hwg mm hok
+      obtain ⟨k, hk, rfl⟩ := List.mem_map.mp hwg
+      have hk' := List.mem_range.mp hk
+      obtain ⟨h1, h2, h3⟩ := rowSize_ok c.G k hG hk'
+      show ∃ m', runWG P c.co (fuel + 27) (fuel + 26 + 1) (wavesOf (disp c ka pk) ⟨(k, 0, 0), (rowSize c.G k, 1, 1)⟩) mm [] = _ ∧ _
+      rw [wavesOf_disp c ka pk k _ h1 h2]
+      obtain ⟨m', hr, hg, hok'⟩ := runWG_effect P c.co (fuel + 27) (fuel + 26) (Ok c (get m0))
+        (fun _ => wavePairs c (get m0) k (2 ^ rowSize c.G k - 1)) [wave0 c ka pk k (rowSize c.G k)]
+        (by
+          intro w hw
+          rw [List.mem_singleton] at hw
+          subst hw
+          exact wave_spec c hv (get m0) himg ka pk k _ h1 h2 h3 fuel)
+        mm [] hok
+      refine ⟨m', hr, ?_, hok'⟩
+      rw [hg]
+      simp only [List.flatMap_cons, List.flatMap_nil, List.append_nil]
+      rfl)
+    m0 (fun a _ => rfl)
+  refine ⟨m', hf, ?_⟩
+  rw [hg, List.flatMap_map]
+  rfl
+
+
+/-- every grid point `g < G` is the item `x` of exactly the work-group row it lies in — obtained from
+    the C08 partition theorem `items_cover` -/
+theorem grid_point (G g : Nat) (hG : 0 < G) (hg : g < G) :
+    ∃ k x, k < C08.nwg G 64 ∧ x < rowSize G k ∧ g = 64 * k + x := by
+  have hperm := C08.items_cover (geo G) (geo_valid G hG)
+  have hmem : ((g, 0, 0) : C08.Coord) ∈ C08.spawn ((geo G).gx, (geo G).gy, (geo G).gz) := by
+    rw [C08.mem_spawn]
+    exact ⟨hg, Nat.one_pos, Nat.one_pos⟩
+  have hin := hperm.mem_iff.mpr hmem
+  unfold C08.allItems at hin
+  rw [allWGs_geo] at hin
+  obtain ⟨w, hw, hit⟩ := List.mem_flatMap.mp hin
+  obtain ⟨k, hk, rfl⟩ := List.mem_map.mp hw
+  obtain ⟨it, hit1, hit2⟩ := List.mem_map.mp hit
+  have hk' := List.mem_range.mp hk
+  rw [C08.mem_spawn] at hit1
+  obtain ⟨x, y, z⟩ := it
+  simp only [C08.globalOf, geo, Prod.mk.injEq] at hit2
+  refine ⟨k, x, hk', hit1.1, ?_⟩
+  omega
+
+theorem allPairs_mem (c : Cfg) (hG : 0 < c.G) (f0 : Nat → Nat) (p : Nat × Nat) :
+    p ∈ allPairs c f0 ↔ ∃ g, g < c.K ∧ p ∈ storePairs (c.dst + 4 * g) (rd32 f0 (c.src + 4 * g) % 2 ^ 32) := by
+  unfold allPairs
+  constructor
+  · intro h
+    obtain ⟨k, hk, hp⟩ := List.mem_flatMap.mp h
+    have hk' := List.mem_range.mp hk
+    obtain ⟨h1, h2, h3⟩ := rowSize_ok c.G k hG hk'
+    unfold wavePairs at hp
+    obtain ⟨l, hl, hp'⟩ := List.mem_flatMap.mp hp
+    obtain ⟨h4, h5⟩ := (mem_exec_lanes c k _ l h2).mp hl
+    exact ⟨64 * k + l, by unfold Cfg.K; omega, hp'⟩
+  · rintro ⟨g, hg, hp⟩
+    have hgG : g < c.G := by unfold Cfg.K at hg; omega
+    have hgN : g < c.N := by unfold Cfg.K at hg; omega
+    obtain ⟨k, x, hk, hx, rfl⟩ := grid_point c.G g hG hgG
+    obtain ⟨h1, h2, h3⟩ := rowSize_ok c.G k hG hk
+    apply List.mem_flatMap.mpr
+    refine ⟨k, List.mem_range.mpr hk, ?_⟩
+    unfold wavePairs
+    apply List.mem_flatMap.mpr
+    exact ⟨x, (mem_exec_lanes c k _ x h2).mpr ⟨hx, hgN⟩, hp⟩
+
+theorem applyWrites_consistent (ps : List (Nat × Nat)) (a v : Nat) (hall : ∀ p ∈ ps, p.1 = a → p.2 = v) :
+    ∀ f, applyWrites ps f a = if (∃ p ∈ ps, p.1 = a) then v else f a := by
+  induction ps with
+  | nil => intro f; simp [applyWrites]
+  | cons p ps ih =>
+    intro f
+    show applyWrites ps (fun x => if x = p.1 then p.2 else f x) a = _
+    rw [ih (fun q hq => hall q (List.mem_cons_of_mem _ hq))]
+    by_cases hex : ∃ q ∈ ps, q.1 = a
+    · have : ∃ q ∈ p :: ps, q.1 = a := by
+        obtain ⟨q, hq, e⟩ := hex
+        exact ⟨q, List.mem_cons_of_mem _ hq, e⟩
+      rw [if_pos hex, if_pos this]
+    · rw [if_neg hex]
+      by_cases hp : p.1 = a
+      · have : ∃ q ∈ p :: ps, q.1 = a := ⟨p, List.mem_cons_self .., hp⟩
+        rw [if_pos this]
+        simp only [hp, if_true]
+        exact hall p (List.mem_cons_self ..) hp
+      · have : ¬ ∃ q ∈ p :: ps, q.1 = a := by
+          rintro ⟨q, hq, e⟩
+          rcases List.mem_cons.mp hq with rfl | hq'
+          · exact hp e
+          · exact hex ⟨q, hq', e⟩
+        rw [if_neg this]
+        have : ¬ a = p.1 := fun e => hp e.symm
+        simp [this]
+
+/-- the bytes a lane stores are the bytes it loaded -/
+theorem store_bytes (b0 b1 b2 b3 D : Nat) (h0 : b0 < 256) (h1 : b1 < 256) (h2 : b2 < 256) (h3 : b3 < 256)
+    (p : Nat × Nat) (hp : p ∈ storePairs D ((b0 + b1 * 2 ^ 8 + b2 * 2 ^ 16 + b3 * 2 ^ 24) % 2 ^ 32)) :
+    D ≤ p.1 ∧ p.1 < D + 4 ∧
+      p.2 = (if p.1 - D = 0 then b0 else if p.1 - D = 1 then b1 else if p.1 - D = 2 then b2 else b3) := by
+  simp only [storePairs, List.mem_cons, List.mem_nil_iff, or_false] at hp
+  rcases hp with rfl | rfl | rfl | rfl
+  · refine ⟨by simp, by simp, ?_⟩
+    simp only [Nat.sub_self, if_true]
+    omega
+  · refine ⟨by simp, by simp, ?_⟩
+    simp only [Nat.add_sub_cancel_left, show ¬ (1 : Nat) = 0 by decide, if_false, if_true]
+    omega
+  · refine ⟨by simp, by simp, ?_⟩
+    simp only [Nat.add_sub_cancel_left, show ¬ (2 : Nat) = 0 by decide, show ¬ (2 : Nat) = 1 by decide, if_false, if_true]
+    omega
+  · refine ⟨by simp, by simp, ?_⟩
+    simp only [Nat.add_sub_cancel_left, show ¬ (3 : Nat) = 0 by decide, show ¬ (3 : Nat) = 1 by decide,
+      show ¬ (3 : Nat) = 2 by decide, if_false]
+    omega
+
+
+instance (c : Cfg) (a : Nat) : Decidable (c.inDst a) := by unfold Cfg.inDst; infer_instance
+
+theorem pair_spec (c : Cfg) (hG : 0 < c.G) (f0 : Nat → Nat) (hb : ∀ i, i < 4 * c.K → f0 (c.src + i) < 256)
+    (p : Nat × Nat) (hp : p ∈ allPairs c f0) : c.inDst p.1 ∧ p.2 = f0 (c.src + (p.1 - c.dst)) := by
+  obtain ⟨g, hg, hps⟩ := (allPairs_mem c hG f0 p).mp hp
+  have h0 := hb (4 * g) (by omega)
+  have h1 := hb (4 * g + 1) (by omega)
+  have h2 := hb (4 * g + 2) (by omega)
+  have h3 := hb (4 * g + 3) (by omega)
+  rw [← Nat.add_assoc] at h1 h2 h3
+  unfold rd32 at hps
+  obtain ⟨k1, k2, k3⟩ := store_bytes _ _ _ _ _ h0 h1 h2 h3 p hps
+  refine ⟨⟨by omega, by omega⟩, ?_⟩
+  rw [k3]
+  have hj : p.1 - (c.dst + 4 * g) = 0 ∨ p.1 - (c.dst + 4 * g) = 1 ∨ p.1 - (c.dst + 4 * g) = 2 ∨ p.1 - (c.dst + 4 * g) = 3 := by
+    omega
+  rcases hj with e | e | e | e
+  · rw [if_pos e, show p.1 - c.dst = 4 * g by omega]
+  · rw [if_neg (by omega), if_pos e, show p.1 - c.dst = 4 * g + 1 by omega, ← Nat.add_assoc]
+  · rw [if_neg (by omega), if_neg (by omega), if_pos e, show p.1 - c.dst = 4 * g + 2 by omega, ← Nat.add_assoc]
+  · rw [if_neg (by omega), if_neg (by omega), if_neg (by omega), show p.1 - c.dst = 4 * g + 3 by omega, ← Nat.add_assoc]
+
+theorem pair_exists (c : Cfg) (hG : 0 < c.G) (f0 : Nat → Nat) (a : Nat) (ha : c.inDst a) :
+    ∃ p ∈ allPairs c f0, p.1 = a := by
+  obtain ⟨h1, h2⟩ := ha
+  have hg : (a - c.dst) / 4 < c.K := by omega
+  have hj : (a - c.dst) % 4 = 0 ∨ (a - c.dst) % 4 = 1 ∨ (a - c.dst) % 4 = 2 ∨ (a - c.dst) % 4 = 3 := by omega
+  generalize hx : rd32 f0 (c.src + 4 * ((a - c.dst) / 4)) % 2 ^ 32 = x
+  have hmem : ∀ q, q ∈ storePairs (c.dst + 4 * ((a - c.dst) / 4)) x → q ∈ allPairs c f0 :=
+    fun q hq => (allPairs_mem c hG f0 q).mpr ⟨_, hg, by rw [hx]; exact hq⟩
+  rcases hj with e | e | e | e
+  · exact ⟨_, hmem (c.dst + 4 * ((a - c.dst) / 4), x % 256) (by simp [storePairs]), by simp only; omega⟩
+  · exact ⟨_, hmem (c.dst + 4 * ((a - c.dst) / 4) + 1, x / 256 % 256) (by simp [storePairs]), by simp only; omega⟩
+  · exact ⟨_, hmem (c.dst + 4 * ((a - c.dst) / 4) + 2, x / 65536 % 256) (by simp [storePairs]), by simp only; omega⟩
+  · exact ⟨_, hmem (c.dst + 4 * ((a - c.dst) / 4) + 3, x / 16777216 % 256) (by simp [storePairs]), by simp only; omega⟩
+
+/-- the effect of all the wavefronts' writes on the launch image -/
+theorem copy_result (c : Cfg) (hG : 0 < c.G) (f0 : Nat → Nat) (hb : ∀ i, i < 4 * c.K → f0 (c.src + i) < 256) (a : Nat) :
+    applyWrites (allPairs c f0) f0 a = if c.inDst a then f0 (c.src + (a - c.dst)) else f0 a := by
+  by_cases ha : c.inDst a
+  · rw [if_pos ha, applyWrites_consistent (allPairs c f0) a (f0 (c.src + (a - c.dst)))
+      (fun p hp e => by rw [(pair_spec c hG f0 hb p hp).2, e]), if_pos (pair_exists c hG f0 a ha)]
+  · rw [if_neg ha, applyWrites_not_key]
+    intro p hp e
+    exact ha (e ▸ (pair_spec c hG f0 hb p hp).1)
+
+
 end C01.Emu.Copy
